@@ -648,6 +648,30 @@ def flatten_template(ctx, fi: FuncInfo, e: ast.expr, depth=0) -> Optional[list]:
             if rets and (annotation_name(h.node.returns) or "") in ("str", "") and not any(isinstance(x, (ast.Yield, ast.YieldFrom)) for x in own_walk(h.node)):
                 alts = [flatten_template(ctx, h, r.value, depth + 1) for r in rets]
                 if all(a is not None for a in alts):
+                    # a hole that is one of the helper's parameters stands for what the caller hands in
+                    hp = params_of(h.node)
+                    off = 1 if h.cls is not None and isinstance(e.func, ast.Attribute) else 0
+                    amap = {}
+                    for i_, a_ in enumerate(e.args):
+                        if i_ + off < len(hp):
+                            amap[hp[i_ + off]] = a_
+                    for k_ in e.keywords:
+                        if k_.arg:
+                            amap[k_.arg] = k_.value
+                    reassigned = set(assigned_names(h.node))
+
+                    def subst(parts):
+                        out_ = []
+                        for p_ in parts:
+                            if p_[0] == "hole" and p_[3] is h and isinstance(p_[1], ast.Name) and p_[1].id in amap and p_[1].id not in reassigned:
+                                inner_ = flatten_template(ctx, fi, amap[p_[1].id], depth + 1) if p_[2] is None else None
+                                out_ += inner_ if inner_ is not None else [("hole", amap[p_[1].id], p_[2], fi)]
+                            elif p_[0] == "alt":
+                                out_.append(("alt", [subst(a_) for a_ in p_[1]]) + tuple(p_[2:]))
+                            else:
+                                out_.append(p_)
+                        return _merge_lits(out_)
+                    alts = [subst(a) for a in alts]
                     return alts[0] if len(alts) == 1 else [("alt", alts)]
         return None
     return None
